@@ -150,9 +150,14 @@ def run_subsets(ctx, case):
             bits, o, q1 = check_measure(ctx, psi, n, keep, seed, form=(sd + ki) % 3)
             seen.add(o)
             kept.append((q1, q1.copy()))
-            # same seed -> same outcome
+            # same seed -> same outcome, also after the caller has edited the bit list it got back (it is the caller's list)
+            bits_keep = list(bits)
+            if isinstance(bits, list):
+                bits.reverse()
+                bits.append(7)
             bits2, _, _ = nq.sim.state.measure_quantum_vector(psi.copy(), tuple(keep), seed=seed)
-            ctx.require(list(bits2) == list(bits), 'same seed gives the same outcome')
+            ctx.require(list(bits2) == bits_keep, 'same seed gives the same outcome (also after the first returned bit list was edited in place)', f'{bits_keep} vs {list(bits2)}')
+            bits = bits_keep
             # repeatability: measuring again gives the same bits with certainty and leaves the state unchanged
             bits3, prob3, q3 = nq.sim.state.measure_quantum_vector(q1.copy(), tuple(keep), seed=seed + 1)
             ctx.require(list(bits3) == list(bits), 're-measurement returns the same outcome', f'{bits} -> {bits3}')
